@@ -36,9 +36,11 @@ EFFECTS = [
 
 
 def actor_bodies(f):
+    """the action handlers and every private helper of the actor they call (helpers extracted by a
+    refactoring are analysed like the handlers themselves)"""
     out = []
     for b in f.bodies.values():
-        if b.path.startswith("actor::Actor::on_action") or b.path.startswith("actor::Actor::on_replica_action") or b.path.startswith("actor::Actor::run_async"):
+        if b.path.startswith("actor::Actor::") and not b.path.startswith("actor::Actor::open") and not b.path.startswith("actor::Actor::close"):
             out.append(b)
     return out
 
@@ -102,13 +104,22 @@ def r1(ctx):
     if n < 9:
         raise mir.AnchorMissing("expected >=9 gated effect call sites in the actor, found %d" % n)
     # Replica::new only in the two gate functions (within actor.rs)
+    gates = {"actor::OpenReplicas::replica", "actor::OpenReplicas::replica_if_syncing"}
+
+    def only_from_gates(path, depth=3):
+        if path in gates:
+            return True
+        if depth <= 0:
+            return False
+        callers = {cb.path for cb, _, _ in f.callers().get(path, []) if cb.path.startswith("actor::")}
+        return bool(callers) and all(only_from_gates(c, depth - 1) for c in callers)
     for b in f.bodies.values():
         if not b.path.startswith("actor::"):
             continue
         for bi, t in b.calls():
             if callee_matches(t, r"sync::Replica::<.*>::new$"):
-                ctx.check(b.path in ("actor::OpenReplicas::replica", "actor::OpenReplicas::replica_if_syncing"), "C14.R1", b.path, "constructs-Replica",
-                          "Replica::new is reachable in the actor only through the gates", t["sp"])
+                ctx.check(only_from_gates(b.path), "C14.R1", b.path, "constructs-Replica",
+                          "Replica::new is reachable in the actor only through the gates (directly or in a helper that only the gates call)", t["sp"])
     ctx.floor("C14.R1", 12)
 
 
@@ -160,85 +171,112 @@ def r2(ctx):
     ctx.floor("C14.R2", 6)
 
 
+def _map_oracle(E, kind_of_entry, log):
+    """models std HashMap's entry API for one key: the entry is Occupied (its value is heap object
+    `state`) or Vacant; insert/remove are recorded in `log`. std: enum Entry { Occupied, Vacant }."""
+    def oracle(kind, name, payload, site):
+        if kind != "call":
+            return None
+        t, args, it = payload
+        full = (t["f"].get("full") or "") + (t["f"].get("path") or "")
+        if name == "entry" and "HashMap" in full:
+            return E.Adt("std::collections::hash_map::Entry", 0 if kind_of_entry == "occupied" else 1, {0: E.Tok("entry")})
+        if name in ("get_mut", "into_mut", "get") and "OccupiedEntry" in full:
+            return E.href("state")
+        if name in ("remove", "remove_entry") and "OccupiedEntry" in full:
+            log.append(("remove",))
+            return E.Tok("removed")
+        if name in ("insert", "insert_entry") and "VacantEntry" in full:
+            it.heap["inserted"] = it.deref_val(args[1])
+            log.append(("insert",))
+            return E.href("inserted")
+        if name == "or_insert_with" or name == "or_insert":
+            raise E.Unsupported("entry combinator %s not modelled" % name)
+        if name in ("call_mut", "call", "call_once"):
+            log.append(("open_cb",))
+            return E.Ok(E.Tok("info")) if log.cb_ok else E.Err(E.Tok("open-error"))
+        if name == "subscribe":
+            log.append(("subscribe",))
+            return E.UNIT
+        if name in ("wrapping_sub", "saturating_sub") and len(args) == 2 and E.is_int(args[0]) and E.is_int(args[1]):
+            v = args[0][1] - args[1][1]
+            return E.Int(v % (1 << 64) if name == "wrapping_sub" else max(v, 0))
+        if name == "checked_sub" and len(args) == 2 and E.is_int(args[0]) and E.is_int(args[1]):
+            v = args[0][1] - args[1][1]
+            return E.Some(E.Int(v)) if v >= 0 else E.NONE
+        return None
+    return oracle
+
+
+class _Log(list):
+    cb_ok = True
+
+
 def r3(ctx):
+    """open_with / close as transition tables over (entry kind, sync flag, handle count), obtained by
+    evaluating their MIR on abstract states (K6'); the map's entry API is modelled, nothing else."""
+    from . import feval as E
     f = ctx.facts
     ow = f.body("actor::OpenReplicas::open_with")
     ctx.touch(ow)
-    n_v = n_o = 0
-    for p in P.explore(ow):
-        ent = [v for k, v in p.decisions if k[0] == "discr" and "entry" in k[1]]
-        if not ent:
-            ctx.bad("C14.R3", ow.path, "form", "path not decided on the map entry (UNSUPPORTED-FORM): %s" % P.fmt_decisions(p), ow.sp)
-            continue
-        calls = P.calls(p)
-        w = P.writes(p)
-        # which variant index is Vacant? the one on which the callback runs / insert is called
-        if "get_mut" in calls or any(fld == "handles" for fld, _ in w):
-            # occupied
-            n_o += 1
-            hv = [v for fld, v in w if fld == "handles"]
-            sv = [v for fld, v in w if fld == "sync"]
-            prior = None
-            for k, v in p.decisions:
-                if k[0] == "place" and k[1].endswith(".sync"):
-                    prior = v
-            ok_h = len(hv) == 1 and re.fullmatch(r"Add\(place:.*handles,1\)", hv[0]) is not None
-            want_s = "1" if prior == 1 else "place:arg:opts.sync"
-            ok_s = (sv == [want_s]) or (not sv and prior == 1)
-            ok_cb = "call_mut" not in calls and "call" not in calls and "call_once" not in calls
-            ctx.check(ok_h, "C14.R3", ow.path, "occupied.handles+1[sync=%s]" % prior, "handles := %s" % hv, ow.sp)
-            ctx.check(ok_s, "C14.R3", ow.path, "occupied.sync-sticky[sync=%s]" % prior, "sync := %s (spec: old || opts.sync, enabling is sticky)" % sv, ow.sp)
-            ctx.check(ok_cb, "C14.R3", ow.path, "occupied.no-reopen[sync=%s]" % prior, "open callback not called for an already open document (calls %s)" % calls, ow.sp)
-        else:
-            if p.ret[0] == "call" and p.ret[1] == "from_residual":
-                continue
-            n_v += 1
-            cbs = [c for c in calls if c in ("call_mut", "call", "call_once")]
-            ins = [e for e in p.events if e[0] == "call" and e[1] == "insert"]
-            ok = len(cbs) == 1 and len(ins) == 1
-            hs = None
-            if ins:
-                # the OpenReplica aggregate
-                t = ins[0][2]
-                for o in trace(ow, t["a"][1]):
-                    if o.kind == "agg" and o.data[0][0] == "adt" and o.data[0][1] == "actor::OpenReplica":
-                        names = o.data[0][4]
-                        vals = {}
-                        for nm, op in zip(names, o.data[1]):
-                            if op[0] == "const":
-                                vals[nm] = str(op[1].get("val"))
-                            else:
-                                vals[nm] = "|".join(sorted({origin_summary(x) + ("." + ".".join(mir.field_path(x)) if mir.field_path(x) else "") for x in trace(ow, op)}))
-                        hs = vals
-            ok = ok and hs is not None and hs.get("handles") == "1" and hs.get("sync") == "arg:opts.sync"
-            ctx.check(ok, "C14.R3", ow.path, "vacant.first-open[%s]" % ("subscribe" if "subscribe" in calls else "plain"),
-                      "callback calls %d, inserted state %s (spec: handles=1, sync=opts.sync)" % (len(cbs), hs), ow.sp)
-    if n_v < 1 or n_o < 2:
-        raise mir.AnchorMissing("open_with: expected vacant and occupied paths, found %d/%d" % (n_v, n_o))
+    OR = "actor::OpenReplica"
+
+    def run_open(kind, s, h, o, sub, cb_ok=True):
+        log = _Log()
+        log.cb_ok = cb_ok
+        heap = {"self": E.Tok("map"), "state": E.struct(f, OR, info=E.Tok("info0"), sync=E.Int(s), handles=E.Int(h)), "cb": E.Tok("open_cb")}
+        opts = E.struct(f, "actor::OpenOpts", sync=E.Int(o), subscribe=E.Some(E.Tok("sender")) if sub else E.NONE)
+        ret, hp, ev = E.run(f, ow.path, [E.href("self"), E.Tok("namespace"), opts, E.Tok("open_cb")], heap, _map_oracle(E, kind, log))
+        return ret, hp, log
+    try:
+        for s in (0, 1):
+            for o in (0, 1):
+                for h in (1, 7):
+                    ret, hp, log = run_open("occupied", s, h, o, o == 1)
+                    st = hp["state"]
+                    hs = E.describe(E.field(f, st, OR, "handles"), f)
+                    sy = E.describe(E.field(f, st, OR, "sync"), f)
+                    tag = "[sync=%d,opts.sync=%d,handles=%d]" % (s, o, h)
+                    ctx.check(hs == str(h + 1), "C14.R3", ow.path, "occupied.handles+1" + tag, "handles %d -> %s" % (h, hs), ow.sp)
+                    ctx.check(sy == str(s | o), "C14.R3", ow.path, "occupied.sync-sticky" + tag, "sync %d -> %s (spec: old || opts.sync, enabling is sticky)" % (s, sy), ow.sp)
+                    ctx.check(("open_cb",) not in log and ("insert",) not in log and ("remove",) not in log and E.describe(ret, f).startswith("Ok"),
+                              "C14.R3", ow.path, "occupied.no-reopen" + tag, "returns %s; map/callback events %s (spec: an open document is not loaded or inserted again)" % (E.describe(ret, f), list(log)), ow.sp)
+        for o in (0, 1):
+            for sub in (0, 1):
+                ret, hp, log = run_open("vacant", 0, 0, o, sub)
+                ins = hp.get("inserted")
+                d = None
+                if ins is not None and ins[0] == "adt":
+                    d = (E.describe(E.field(f, ins, OR, "handles"), f), E.describe(E.field(f, ins, OR, "sync"), f), E.describe(E.field(f, ins, OR, "info"), f))
+                ok = log.count(("open_cb",)) == 1 and log.count(("insert",)) == 1 and d is not None and d[0] == "1" and d[1] == str(o) and "info" in d[2] \
+                    and log.count(("subscribe",)) == sub and E.describe(ret, f).startswith("Ok")
+                ctx.check(ok, "C14.R3", ow.path, "vacant.first-open[opts.sync=%d,subscribe=%d]" % (o, sub),
+                          "returns %s, events %s, inserted (handles, sync, info) = %s (spec: callback once, handles=1, sync=opts.sync)" % (E.describe(ret, f), list(log), d), ow.sp)
+        ret, hp, log = run_open("vacant", 0, 0, 1, 0, cb_ok=False)
+        ctx.check(("insert",) not in log and E.describe(ret, f).startswith("Err"), "C14.R3", ow.path, "vacant.open-error-leaves-closed",
+                  "callback fails: returns %s, events %s" % (E.describe(ret, f), list(log)), ow.sp)
+    except E.Unsupported as e:
+        ctx.bad("C14.R3", ow.path, "form", "open_with not evaluable (UNSUPPORTED-FORM): %s" % e, ow.sp)
     cl = f.body("actor::OpenReplicas::close")
     ctx.touch(cl)
-    rows = []
-    for p in P.explore(cl):
-        calls = P.calls(p)
-        w = P.writes(p)
-        zero = None
-        for k, v in p.decisions:
-            if k[0] == "cmp" and k[1] == "==" and "const:0" in (k[2], k[3]):
-                zero = v
-        rows.append((("occupied" if "get_mut" in calls else "vacant"), zero, P.short(p.ret), tuple(fld for fld, _ in w), "remove_entry" in calls or "remove" in calls))
-        if "get_mut" in calls:
-            hv = [e for e in p.events if e[0] == "write" and e[4].endswith("handles")]
-            okd = False
-            if len(hv) == 1:
-                v = hv[0][5]
-                if v[0] == "call" and v[1] in ("wrapping_sub", "saturating_sub", "checked_sub") and v[2]["a"][1][0] == "const" and v[2]["a"][1][1].get("val") == 1:
-                    okd = True
-                if v[0] == "expr" and v[1] == "Sub" and P.short(v[3]) == "1":
-                    okd = True
-            ctx.check(okd, "C14.R3", cl.path, "occupied.handles-1[zero=%s]" % zero, "handles := handles - 1", cl.sp)
-    want = {("vacant", None, "1", (), False), ("occupied", 1, "1", ("handles",), True), ("occupied", 0, "0", ("handles",), False)}
-    ctx.check(set(rows) == want, "C14.R3", cl.path, "transition-table",
-              "(entry, reached-zero, returns, writes, removed) = %s; spec: vacant => true untouched; occupied => decrement, removed and true iff zero" % sorted(rows, key=str), cl.sp)
+    try:
+        log = _Log()
+        ret, hp, ev = E.run(f, cl.path, [E.href("self"), E.Tok("namespace")], {"self": E.Tok("map")}, _map_oracle(E, "vacant", log))
+        ctx.check(E.describe(ret, f) == "1" and not log, "C14.R3", cl.path, "close.vacant", "returns %s, events %s (spec: true, untouched)" % (E.describe(ret, f), list(log)), cl.sp)
+        for h in (1, 2, 5):
+            for s in (0, 1):
+                log = _Log()
+                heap = {"self": E.Tok("map"), "state": E.struct(f, OR, info=E.Tok("info0"), sync=E.Int(s), handles=E.Int(h))}
+                ret, hp, ev = E.run(f, cl.path, [E.href("self"), E.Tok("namespace")], heap, _map_oracle(E, "occupied", log))
+                removed = ("remove",) in log
+                hs = E.describe(E.field(f, hp["state"], OR, "handles"), f)
+                sy = E.describe(E.field(f, hp["state"], OR, "sync"), f)
+                last = h == 1
+                ok = (E.describe(ret, f) == ("1" if last else "0")) and removed == last and (last or (hs == str(h - 1) and sy == str(s)))
+                ctx.check(ok, "C14.R3", cl.path, "close.occupied[handles=%d,sync=%d]" % (h, s),
+                          "returns %s, removed=%s, handles -> %s, sync -> %s (spec: decrement; removed and true iff it reaches zero)" % (E.describe(ret, f), removed, hs, sy), cl.sp)
+    except E.Unsupported as e:
+        ctx.bad("C14.R3", cl.path, "form", "close not evaluable (UNSUPPORTED-FORM): %s" % e, cl.sp)
     # Actor::close releases the store-level open mark iff closed
     ac = f.body("actor::Actor::close")
     ctx.touch(ac)
@@ -250,7 +288,7 @@ def r3(ctx):
         e = oc.get("true")
         ok = bool(e) and ac.edge_dominates(e[0], e[1], c2[0][0])
     ctx.check(ok, "C14.R3", ac.path, "store-close-iff-last-handle", "Store::close_replica only on the true edge of OpenReplicas::close", ac.sp)
-    ctx.floor("C14.R3", 9)
+    ctx.floor("C14.R3", 30)
 
 
 def r4(ctx):
@@ -275,15 +313,21 @@ def r4(ctx):
                                         if k in ("write", "sync") and callee_matches(ct, rx):
                                             bad.append(ct["f"].get("name"))
             ctx.check(not bad, "C14.R4", b.path, "spawned-task-is-read-only", "spawned task performs %s" % (bad or "no entry writes / reconciliation"), t["sp"])
-    ctx.check(spawn_sites >= 3, "C14.R4", "actor::Actor", "spawn-sites-inventoried", "%d spawn sites (streaming reads)" % spawn_sites, bodies[0].sp)
+    ctx.check(spawn_sites >= 1, "C14.R4", "actor::Actor", "spawn-sites-inventoried", "%d spawn sites (streaming reads)" % spawn_sites, bodies[0].sp)
     # mutating effects are awaited in the handler coroutine itself (not inside a spawned body): their bodies' root is on_replica_action
     # shutdown: flush, close_all, then reply with the store
-    ra = [b for b in f.bodies.values() if b.path.startswith("actor::Actor::run_async::{closure#0}") and b.path.count("{closure") == 1]
-    if len(ra) != 1:
-        raise mir.AnchorMissing("actor::Actor::run_async coroutine body not found")
-    r = ra[0]
+    # shutdown: wherever the store is handed back, flush and close_all come first (in that order)
+    cands = []
+    for r in f.bodies.values():
+        if not r.path.startswith("actor::Actor::"):
+            continue
+        sends = [(bi, t) for bi, t in r.calls() if t["f"].get("name") == "send" and len(t["a"]) > 1 and any("store" in mir.field_path(o) for o in trace(r, t["a"][1]))]
+        if sends:
+            cands.append((r, sends))
+    if len(cands) != 1:
+        raise mir.AnchorMissing("expected one actor body that replies with the store, found %d" % len(cands))
+    r, sends = cands[0]
     ctx.touch(r)
-    sends = [(bi, t) for bi, t in r.calls() if t["f"].get("name") == "send" and any("store" in mir.field_path(o) for o in trace(r, t["a"][1]))]
     fl = [(bi, t) for bi, t in r.calls() if callee_matches(t, r"store::fs::Store::flush$")]
     ca = [(bi, t) for bi, t in r.calls() if callee_matches(t, r"actor::Actor::close_all$")]
     ok = len(sends) == 1 and bool(fl) and len(ca) == 1
@@ -291,7 +335,11 @@ def r4(ctx):
         sb = sends[0][0]
         ok = any(r.dominates(x[0], sb) for x in fl) and r.dominates(ca[0][0], sb) and any(r.dominates(x[0], ca[0][0]) for x in fl)
     ctx.check(ok, "C14.R4", r.path, "shutdown:flush-then-close-then-reply", "reply.send(self.store) is dominated by close_all, which is dominated by a flush", sends[0][1]["sp"] if sends else r.sp)
-    ctx.floor("C14.R4", 4)
+    # and the loop exit reaches it: if it lives in a helper, run_async calls that helper after leaving the loop
+    if not r.path.startswith("actor::Actor::run_async"):
+        ra = [x for x in f.bodies.values() if x.path.startswith("actor::Actor::run_async") and any(r.path in mir.callee_paths(t) for _, t in x.calls())]
+        ctx.check(len(ra) == 1, "C14.R4", r.path, "shutdown-helper-called-from-run_async", "%s is called from the actor loop" % r.path, r.sp)
+    ctx.floor("C14.R4", 3)
 
 
 def run(ctx):
